@@ -254,6 +254,48 @@ def run(R):
         R.floor('C04.R5', 'bodies in reach of the header reader', nbodies, 5)
         R.note('R5: %d bodies reachable, %d potential panic sites examined' % (nbodies, nsites))
 
+    # ---------------------------------------------------------------- R5b degrade to an error status
+    R.describe('C04.R5b', 'from_header_map: whenever decoding grpc-message (percent/UTF-8) or grpc-status-details-bin (base64) fails, the resulting status code is Code::Unknown (never the peer-supplied code)')
+    with R.guard('C04.R5b'):
+        fh = tonic.body('status::Status::from_header_map')
+        aggs = mirlib.aggregates(fh, 'status::Status')
+        n = 0
+        for bb, i, p, a, ops in aggs:
+            code_t = fh.origin(ops[a['fields'].index('code')])
+            # walk back through the (code, message, ..) tuples: every tuple writer guarded by an Err discriminant must carry Unknown
+            seen_loc = set()
+            work = [ops[a['fields'].index('code')]]
+            while work:
+                op = work.pop()
+                pl = op.get('cp') or op.get('mv')
+                if pl is None:
+                    continue
+                base = pl['l']
+                idx = [e['f'] for e in pl.get('pr', []) if isinstance(e, dict) and 'f' in e]
+                if base in seen_loc:
+                    continue
+                seen_loc.add(base)
+                for d in fh.defs().get(base, []):
+                    if d[0] != 'stmt':
+                        continue
+                    rv = d[3]
+                    dbb = d[1]
+                    if 'agg' in rv and rv['agg'].get('kind') == 'tuple':
+                        comp = rv['ops'][idx[0]] if idx else rv['ops'][0]
+                        g = fh.edge_guards(dbb)
+                        err_guard = [show(tm)[:70] for s_, vals, tm in g if show(tm).startswith('discr(') and vals == [1] and ('decode' in show(tm)) and 'from_bytes' not in show(tm)]
+                        ct = strip_refs(fh.origin(comp))
+                        if err_guard:
+                            n += 1
+                            okc = ct[0] == 'agg' and ct[1].get('variant') == 'Unknown'
+                            R.check(okc, 'C04.R5b', 'decode-failure->Unknown@%s' % ('details' if 'base64' in err_guard[0] else 'message'), site(fh, dbb),
+                                    'code on the decode-failure path = %s (guard %s); required Code::Unknown — otherwise grpc-status: 0 with an undecodable field is treated as success' % (show(ct), err_guard[0]))
+                        else:
+                            work.append(comp)
+                    elif 'use' in rv:
+                        work.append(rv['use'])
+        R.floor('C04.R5b', 'decode-failure arms', n, 2)
+
     # ---------------------------------------------------------------- R6 HTTP status table
     R.describe('C04.R6', 'infer_grpc_status maps HTTP status codes exactly as spec/http_status.json; 200 -> Err(None); default Unknown')
     with R.guard('C04.R6'):
